@@ -214,6 +214,27 @@ def r2_config_context(ctx):
             ctx.ob("R2", f, f"initial={sname} exit={exit_kind}: all 2^{len(params)} override subsets restore",
                    not bad, "; ".join(bad[:3]) if bad else "state after == state before; overrides honoured inside")
     ctx.stats["R2_evaluations"] = n_eval
+    # reset_config_context() (no argument) followed by a context: the global CONFIG must stay untouched
+    rf = m.functions.get("reset_config_context")
+    if rf is None:
+        raise AnalysisError("reset_config_context missing")
+    ev, _, _ = _evaluator(ix, {})
+    glob_cfg = Obj("PanderaConfig", dict(initial_states["defaults"]))
+    ev.globals["CONFIG"] = glob_cfg
+    ev.globals["_CONTEXT_CONFIG"] = Obj("PanderaConfig", dict(initial_states["all-non-default"]))
+    try:
+        ev.call_function(rf.node, [], {})
+        ev.yield_hook = lambda env: None
+        ev.call_function(f.node, [], {p: (other[p](initial_states["defaults"][p]) if p in other else None) for p in params})
+        cur = ev.globals["_CONTEXT_CONFIG"]
+        ok = isinstance(cur, Obj) and cur is not ev.globals["CONFIG"] and ev.globals["CONFIG"].fields == initial_states["defaults"] \
+            and cur.fields == initial_states["defaults"]
+        detail = "context reset to a copy of CONFIG; a following config_context leaves CONFIG untouched" if ok else \
+            f"after reset_config_context() the context object {'aliases' if cur is ev.globals['CONFIG'] else 'differs from'} CONFIG " \
+            f"(CONFIG={ev.globals['CONFIG'].fields}, context={getattr(cur, 'fields', cur)})"
+    except Raised as r:
+        ok, detail = False, f"raises {r.what}"
+    ctx.ob("R2", rf, "reset_config_context() rebinds a copy of the global configuration", ok, detail)
 
 
 def _scope_of(func):
@@ -386,6 +407,11 @@ def r4_enabled_gate(ctx):
                 visited.add((f.qual, gated_in))
                 ctx.touched(f)
                 cfg, sites = _enabled_gate(f)
+                r, rt = _disabled_returns_arg(f)
+                if r is not None and (f.qual, "ret") not in done:
+                    done.add((f.qual, "ret"))
+                    ctx.ob("R4", f, f"{f.short}: disabled validation returns the argument itself", r,
+                           f"`{rt}` returns the object as passed" if r else f"`{rt}` does not return the caller's object untouched", f.loc())
                 for c, gated_here, n in sites.values():
                     g = gated_in or gated_here
                     if _is_backend_validate_call(c):
